@@ -30,8 +30,8 @@ CLAIMED["C05"] = dict(
     ref="6/C05")
 
 CLAIMED["C03"] = dict(
-    text="Proof: the members of class half are extracted from half.h/halfLimits.h and put under contract: the C conversion functions as compiled in C++ (same RNE / value specs as C01, all inputs), half(float) and operator float() through those contracts, the member round trip as a lemma, += -= *= /= with half and float right-hand sides == f2h(h2f(a) op b) for all operand pairs, unary minus flips bit 15, the seven classification predicates against the binary16 class for all 2^16 patterns plus the lemma 'exactly one class, consistent with isFinite/isNegative and with the float class of the value', round(n) for all non-NaN patterns and every n (sign, finiteness, cleared low bits, within half a unit, truncation exactly at the overflow edge), numeric_limits<half>/HALF_* extremes against the conversions.",
-    note="Trusted: clang AST + cxx2c (differentially validated), cbmc 6.11 SAT. For *= and /= the float operation is an uninterpreted function (same symbol in code and spec) because SAT cannot match two multiplier circuits; += and -= use IEEE semantics. Stream I/O and halfFunction are not covered.",
+    text="Proof: the members of class half are extracted from half.h/halfLimits.h and put under contract: the C conversion functions as compiled in C++ (same RNE / value specs as C01, all inputs), half(float) and operator float() through those contracts, the member round trip as a lemma, += -= *= /= with half and float right-hand sides == f2h(h2f(a) op b) for all operand pairs, unary minus flips bit 15, the seven classification predicates against the binary16 class for all 2^16 patterns plus the lemma 'exactly one class, consistent with isFinite/isNegative and with the float class of the value', round(n) for all non-NaN patterns and every n (sign, finiteness, cleared low bits, within half a unit, truncation exactly at the overflow edge), numeric_limits<half>/HALF_* extremes against the conversions; halfFunction<float>: the constructor's loop is closed by a loop contract (ghost index, assigns, decreases) so that EVERY one of the 65536 table entries is f(x) for finite x in [domainMin, domainMax] and the designated default / +inf / -inf / NaN value otherwise, and operator() reads the entry of its argument's bit pattern.",
+    note="Trusted: clang AST + cxx2c (differentially validated), cbmc 6.11 SAT (array theory for the 65536-entry table), goto-instrument loop-contract instrumentation. For *= and /= the float operation is an uninterpreted function (same symbol in code and spec) because SAT cannot match two multiplier circuits; += and -= use IEEE semantics. halfFunction: f uninterpreted, configuration IMATH_HAVE_LARGE_STACK (table as a member array). Stream I/O is not covered.",
     technique="CBMC function contracts (dfcc, enforce + replace) on extracted C, SAT back end, full 2^16 / 2^32 domains",
     ref="6/C03")
 CLAIMED["C07"] = dict(
